@@ -59,6 +59,13 @@ Definition c02_step (rf0 : nat) (prev : obs) (e : event) (cur : obs) : bool :=
         Nat.ltb (length att) (2 * length okc)
         && forallb (fun a => if flt fs a KSync then negb (mem a (addrs_of (o_replicas cur))) else true) att
       else true
+  | Unmap fs =>
+      let att := in_service (o_replicas prev) in
+      let okc := filter (fun a => negb (flt fs a KUnmap)) att in
+      if is_ack cur then
+        Nat.ltb (length att) (2 * length okc)
+        && forallb (fun a => if flt fs a KUnmap then negb (mem a (addrs_of (o_replicas cur))) else true) att
+      else true
   | _ => true
   end.
 
@@ -116,16 +123,12 @@ Definition c05_step (rf0 : nat) (prev : obs) (e : event) (cur : obs) : bool :=
       && io_in_range prev e
    then forallb (fun a => if io_kind_fail e a then negb (mem a (addrs_of (o_replicas cur))) else true) att
    else true)
-  (* a minority failing does not surface: the survivors are a strict majority containing an RW *)
-  && (match e with
-      | Write _ off len _ =>
-          let good := filter (fun a => negb (io_kind_fail e a)) att in
-          if quorum_ok rf0 (o_replicas prev) && (0 <=? off) && (off + len <=? o_size prev)
-             && Nat.ltb (length att) (2 * length good)
-             && existsb (fun a => mem a (rw_of (o_replicas prev))) good
-          then is_ack cur else true
-      | _ => true
-      end)
+  (* a minority failing does not surface (write, flush, unmap): the survivors are a strict majority containing an RW *)
+  && (let good := filter (fun a => negb (io_kind_fail e a)) att in
+      if is_io e && quorum_ok rf0 (o_replicas prev) && io_in_range prev e
+         && Nat.ltb (length att) (2 * length good)
+         && existsb (fun a => mem a (rw_of (o_replicas prev))) good
+      then is_ack cur else true)
   (* replicas enter the set only through add (as WO) or start *)
   && forallb (fun p =>
         if mem (fst p) (addrs_of (o_replicas prev)) then true
@@ -137,7 +140,14 @@ Definition c05_step (rf0 : nat) (prev : obs) (e : event) (cur : obs) : bool :=
   (* nobody outside the set receives I/O *)
   && (if is_io e
       then forallb (fun a => if mem a att then true else same_reps prev cur a) (seq 0 (length (o_reps prev)))
-      else true).
+      else true)
+  (* a detector that reports a replica detaches it: a monitor notification that was delivered (whatever value
+     the monitor channel carried), an explicit remove *)
+  && (match e with
+      | MonFire a _ | MonFail a _ | Remove a _ =>
+          if is_ack cur then negb (mem a (addrs_of (o_replicas cur))) else true
+      | _ => true
+      end).
 
 (** ** C18: bookkeeping consistent at quiescent points *)
 Definition c18_step (rf0 : nat) (quiescent : bool) (prev : obs) (e : event) (cur : obs) : bool :=
@@ -150,6 +160,11 @@ Definition c18_step (rf0 : nat) (quiescent : bool) (prev : obs) (e : event) (cur
       | Write _ _ _ _ | Sync _ | Unmap _ | Read _ _ _ _ | Snapshot _ _ | Resize _ _ =>
           forallb (fun a => if mem a (in_service (o_replicas prev)) then true else same_reps prev cur a)
                   (seq 0 (length (o_reps prev)))
+      | _ => true
+      end)
+  (* ... and every replica reported in service was sent the I/O: after an acknowledged write each of them holds it *)
+  && (match e with
+      | Write wid _ _ _ => if is_ack cur then forallb (fun a => holds cur a wid) (in_service (o_replicas cur)) else true
       | _ => true
       end).
 
